@@ -32,7 +32,7 @@ theorem Inv.lockStep {s : State} (hI : Inv s) {a : Actor} {f : Nat} {p : Pc} (hf
   have hI' := hI
   obtain ⟨kindC, kindF, lockOk, frWait, freshOk, freshUniq, freshVer, freshVerT, freshNode, wFreeTaken, preOk, postOk, ownOk, rsmTaken,
     freeTaken, pubNode, waiting, parked, listOk, scanOk, prevOk, placed, oScanOk, oNoneOk, aUnlockOk, aNextOk, aResumeOk, aFreeOk,
-    noRead, cTakeOk, allocUsed, noBad⟩ := hI
+    noRead, cTakeOk, cRemoveOk, allocUsed, noBad⟩ := hI
   constructor
   case kindC => inv_auto
   case kindF => inv_auto
@@ -79,6 +79,7 @@ theorem Inv.lockStep {s : State} (hI : Inv s) {a : Actor} {f : Nat} {p : Pc} (hf
   case aFreeOk => inv_auto
   case noRead => inv_auto
   case cTakeOk => inv_auto
+  case cRemoveOk => inv_auto
   case allocUsed => inv_auto
   case noBad => inv_auto
 
@@ -109,7 +110,7 @@ theorem Inv.unlockStep {s : State} (hI : Inv s) {a : Actor} {f : Nat} {p : Pc}
   have hla := (hI.lockOk f a).2 hl
   obtain ⟨kindC, kindF, lockOk, frWait, freshOk, freshUniq, freshVer, freshVerT, freshNode, wFreeTaken, preOk, postOk, ownOk, rsmTaken,
     freeTaken, pubNode, waiting, parked, listOk, scanOk, prevOk, placed, oScanOk, oNoneOk, aUnlockOk, aNextOk, aResumeOk, aFreeOk,
-    noRead, cTakeOk, allocUsed, noBad⟩ := hI
+    noRead, cTakeOk, cRemoveOk, allocUsed, noBad⟩ := hI
   constructor
   case kindC => inv_auto
   case kindF => inv_auto
@@ -156,6 +157,7 @@ theorem Inv.unlockStep {s : State} (hI : Inv s) {a : Actor} {f : Nat} {p : Pc}
   case aFreeOk => inv_auto
   case noRead => inv_auto
   case cTakeOk => inv_auto
+  case cRemoveOk => inv_auto
   case allocUsed => inv_auto
   case noBad => inv_auto
 
